@@ -15,8 +15,8 @@ every content of the uninitialised memory (`pad`: the 61 bytes after the sentine
 
 Standing hypotheses: as in `Props/C01.lean` (`0 < W ≤ 63`, bytes `< 256`, `pad.length = 61`,
 `raw.length = setUpCap bs.length`, `bs.length + 4 < 2^32`, and — because the proof goes through the simulation of the
-reference reader — the number hypothesis of C01: `ExpSmall bs` (written exponents below 100000: known finding F6
-lives outside; the former per-input assumption `NumberCorrectOn bs` has been discharged, see `Props/C01.lean`).  In particular the theorems now cover texts such as `[1.5.3]`, where the number model's
+reference reader — the number hypothesis of C01: `ExpSmall bs` (written exponents below 100000, or number tokens of at most
+9600 bytes — true for every text of at most 9600 bytes —: known finding F6 lives outside; the former per-input assumption `NumberCorrectOn bs` has been discharged, see `Props/C01.lean`).  In particular the theorems now cover texts such as `[1.5.3]`, where the number model's
 *value* is not the reference's (`C04_native_guard_needed`): the parse still returns, without fault, with an error).
 
 Heap ledger: `Doc.mallocs` / `Doc.frees` count the blocks obtained and released through the allocator and
